@@ -2,7 +2,7 @@
    Statements only, each closed by [exact]; the model is Model/Acl.v (hand-written, tied to
    bumble by tools/harness/c05.py), the proofs are in Proofs/Acl.v. *)
 From Coq Require Import ZArith List Bool.
-From BV Require Import Model.Acl Model.DataQueue Proofs.DataQueue Proofs.Acl.
+From BV Require Import Model.Acl Model.AclSrc Model.DataQueue Gen.C05Shape Proofs.DataQueue Proofs.Acl Proofs.AclSrc.
 Import ListNotations.
 Open Scope Z_scope.
 
@@ -246,6 +246,196 @@ Theorem C05_iso_sdu_length_4096_refuted :
               option_map i_sdu_len (iso_from_bytes b) = Some (Some 0).
 Proof. exact iso_sdu_length_4096_refuted. Qed.
 Print Assumptions C05_iso_sdu_length_4096_refuted.
+
+
+(* ==== the source, regenerated on every run (Gen/C05Shape.v), against the model ====
+   Skeletons: control flow and canonical expression text of every anchored function are what
+   Model/Acl.v was written from. An edit of one of these functions breaks its theorem. *)
+Theorem C05_src_host_send_acl_sdu_skeleton_matches_source : sk_host_send_acl_sdu = exp_sk_host_send_acl_sdu.
+Proof. vm_compute. reflexivity. Qed.
+Print Assumptions C05_src_host_send_acl_sdu_skeleton_matches_source.
+
+Theorem C05_src_host_send_l2cap_pdu_skeleton_matches_source : sk_host_send_l2cap_pdu = exp_sk_host_send_l2cap_pdu.
+Proof. vm_compute. reflexivity. Qed.
+Print Assumptions C05_src_host_send_l2cap_pdu_skeleton_matches_source.
+
+Theorem C05_src_host_send_iso_sdu_skeleton_matches_source : sk_host_send_iso_sdu = exp_sk_host_send_iso_sdu.
+Proof. vm_compute. reflexivity. Qed.
+Print Assumptions C05_src_host_send_iso_sdu_skeleton_matches_source.
+
+Theorem C05_src_host_on_l2cap_pdu_skeleton_matches_source : sk_host_on_l2cap_pdu = exp_sk_host_on_l2cap_pdu.
+Proof. vm_compute. reflexivity. Qed.
+Print Assumptions C05_src_host_on_l2cap_pdu_skeleton_matches_source.
+
+Theorem C05_src_host_conn_on_hci_acl_data_packet_skeleton_matches_source : sk_host_conn_on_hci_acl_data_packet = exp_sk_host_conn_on_hci_acl_data_packet.
+Proof. vm_compute. reflexivity. Qed.
+Print Assumptions C05_src_host_conn_on_hci_acl_data_packet_skeleton_matches_source.
+
+Theorem C05_src_host_conn_on_acl_pdu_skeleton_matches_source : sk_host_conn_on_acl_pdu = exp_sk_host_conn_on_acl_pdu.
+Proof. vm_compute. reflexivity. Qed.
+Print Assumptions C05_src_host_conn_on_acl_pdu_skeleton_matches_source.
+
+Theorem C05_src_asm_init_skeleton_matches_source : sk_asm_init = exp_sk_asm_init.
+Proof. vm_compute. reflexivity. Qed.
+Print Assumptions C05_src_asm_init_skeleton_matches_source.
+
+Theorem C05_src_asm_feed_packet_skeleton_matches_source : sk_asm_feed_packet = exp_sk_asm_feed_packet.
+Proof. vm_compute. reflexivity. Qed.
+Print Assumptions C05_src_asm_feed_packet_skeleton_matches_source.
+
+Theorem C05_src_acl_from_bytes_skeleton_matches_source : sk_acl_from_bytes = exp_sk_acl_from_bytes.
+Proof. vm_compute. reflexivity. Qed.
+Print Assumptions C05_src_acl_from_bytes_skeleton_matches_source.
+
+Theorem C05_src_acl_to_bytes_skeleton_matches_source : sk_acl_to_bytes = exp_sk_acl_to_bytes.
+Proof. vm_compute. reflexivity. Qed.
+Print Assumptions C05_src_acl_to_bytes_skeleton_matches_source.
+
+Theorem C05_src_iso_from_bytes_skeleton_matches_source : sk_iso_from_bytes = exp_sk_iso_from_bytes.
+Proof. vm_compute. reflexivity. Qed.
+Print Assumptions C05_src_iso_from_bytes_skeleton_matches_source.
+
+Theorem C05_src_iso_to_bytes_skeleton_matches_source : sk_iso_to_bytes = exp_sk_iso_to_bytes.
+Proof. vm_compute. reflexivity. Qed.
+Print Assumptions C05_src_iso_to_bytes_skeleton_matches_source.
+
+Theorem C05_src_l2cap_from_bytes_skeleton_matches_source : sk_l2cap_from_bytes = exp_sk_l2cap_from_bytes.
+Proof. vm_compute. reflexivity. Qed.
+Print Assumptions C05_src_l2cap_from_bytes_skeleton_matches_source.
+
+Theorem C05_src_l2cap_to_bytes_skeleton_matches_source : sk_l2cap_to_bytes = exp_sk_l2cap_to_bytes.
+Proof. vm_compute. reflexivity. Qed.
+Print Assumptions C05_src_l2cap_to_bytes_skeleton_matches_source.
+
+Theorem C05_src_ctrl_conn_on_hci_acl_data_packet_skeleton_matches_source : sk_ctrl_conn_on_hci_acl_data_packet = exp_sk_ctrl_conn_on_hci_acl_data_packet.
+Proof. vm_compute. reflexivity. Qed.
+Print Assumptions C05_src_ctrl_conn_on_hci_acl_data_packet_skeleton_matches_source.
+
+Theorem C05_src_ctrl_conn_on_acl_pdu_skeleton_matches_source : sk_ctrl_conn_on_acl_pdu = exp_sk_ctrl_conn_on_acl_pdu.
+Proof. vm_compute. reflexivity. Qed.
+Print Assumptions C05_src_ctrl_conn_on_acl_pdu_skeleton_matches_source.
+
+Theorem C05_src_ctrl_on_hci_acl_data_packet_skeleton_matches_source : sk_ctrl_on_hci_acl_data_packet = exp_sk_ctrl_on_hci_acl_data_packet.
+Proof. vm_compute. reflexivity. Qed.
+Print Assumptions C05_src_ctrl_on_hci_acl_data_packet_skeleton_matches_source.
+
+Theorem C05_src_ctrl_on_link_acl_data_skeleton_matches_source : sk_ctrl_on_link_acl_data = exp_sk_ctrl_on_link_acl_data.
+Proof. vm_compute. reflexivity. Qed.
+Print Assumptions C05_src_ctrl_on_link_acl_data_skeleton_matches_source.
+
+Theorem C05_src_link_send_acl_data_skeleton_matches_source : sk_link_send_acl_data = exp_sk_link_send_acl_data.
+Proof. vm_compute. reflexivity. Qed.
+Print Assumptions C05_src_link_send_acl_data_skeleton_matches_source.
+
+(* Semantics, for ALL values: the loop bounds / slices / flag expressions / comparison operators /
+   header arithmetic found in the current source compute what the model computes. *)
+Theorem C05_src_tx_loop_matches_source :
+  loop_shape tx_atoms exp_tx_data tx_range_start tx_range_stop tx_range_step tx_loop_target tx_slice_lo tx_slice_hi tx_bc tx_len
+  /\ nth 3 tx_atoms exp_empty = exp_tx_len_atom.
+Proof. exact tx_loop_shape. Qed.
+Print Assumptions C05_src_tx_loop_matches_source.
+
+Theorem C05_src_relay_loop_matches_source :
+  loop_shape rl_atoms exp_rl_data rl_range_start rl_range_stop rl_range_step rl_loop_target rl_slice_lo rl_slice_hi rl_bc rl_len
+  /\ nth 3 rl_atoms exp_empty = exp_rl_len_atom.
+Proof. exact rl_loop_shape. Qed.
+Print Assumptions C05_src_relay_loop_matches_source.
+
+(* range(0, len, m) with x[off : off + m] is the model's chunking *)
+Theorem C05_src_chunks_are_slices : forall fuel m l cs, chunks fuel m l = Some cs ->
+  forall k, (k < List.length cs)%nat -> nth k cs [] = firstn m (skipn (k * m) l).
+Proof. exact chunks_nth. Qed.
+Print Assumptions C05_src_chunks_are_slices.
+
+Theorem C05_src_tx_pb_matches_source : forall h cs m k d n len, 1 <= m -> (k < List.length cs)%nat ->
+  a_pb (nth k (mark_frags h 0 cs) d) = pxeval (env_of [n; m; Z.of_nat k * m; len]) tx_pb.
+Proof. exact tx_pb_matches_model. Qed.
+Print Assumptions C05_src_tx_pb_matches_source.
+
+Theorem C05_src_relay_pb_matches_source : forall h cs m k d n len, 1 <= m -> (k < List.length cs)%nat ->
+  a_pb (nth k (mark_frags h 2 cs) d) = pxeval (env_of [n; m; Z.of_nat k * m; len]) rl_pb.
+Proof. exact rl_pb_matches_model. Qed.
+Print Assumptions C05_src_relay_pb_matches_source.
+
+(* the model's assembler step IS the interpretation of the five tests found in feed_packet
+   (membership of pb in the start constants, == continuation, < 2, == length + 4, > length + 4) *)
+Theorem C05_src_feed_matches_source : forall s p, feed s p = feed_src s p.
+Proof. exact feed_matches_source. Qed.
+Print Assumptions C05_src_feed_matches_source.
+
+Theorem C05_src_feed_atoms_match_source :
+  asm_atoms = exp_asm_atoms /\
+  asm_unpack_args = exp_asm_unpack_args /\ asm_test_count = 6.
+Proof. exact asm_atoms_src. Qed.
+Print Assumptions C05_src_feed_atoms_match_source.
+
+Theorem C05_src_acl_header_matches_source : forall pb bc handle x n len,
+  aclhdr_atoms = exp_aclhdr_atoms /\
+  aclhdr_formats = exp_aclhdr_formats /\
+  pxeval (env_of [pb; bc; handle; x; n; len]) aclhdr_pack = acl_hdr handle pb bc /\
+  pxeval (env_of [pb; bc; handle; x; n; len]) aclhdr_handle = Z.land x 4095 /\
+  pxeval (env_of [pb; bc; handle; x; n; len]) aclhdr_pb = Z.land (Z.shiftr x 12) 3 /\
+  pxeval (env_of [pb; bc; handle; x; n; len]) aclhdr_bc = Z.land (Z.shiftr x 14) 3 /\
+  truthy (pxeval (env_of [pb; bc; handle; x; n; len]) aclhdr_len_check) = negb (n =? len).
+Proof. exact aclhdr_matches_source. Qed.
+Print Assumptions C05_src_acl_header_matches_source.
+
+Theorem C05_src_l2cap_matches_source : forall n length,
+  l2_atoms = exp_l2_atoms /\ l2_formats = exp_l2_formats /\
+  truthy (pxeval (env_of [n; length]) l2_short_test) = (n <? 4) /\
+  pxeval (env_of [n; length]) l2_slice_lo = 4 /\
+  pxeval (env_of [n; length]) l2_slice_hi = 4 + length.
+Proof. exact l2_matches_source. Qed.
+Print Assumptions C05_src_l2cap_matches_source.
+
+(* one iteration of the model's ISO loop is the source's iteration: header length, assert,
+   min(...), last-fragment test, the four pb values, lengths, SDU length *)
+Theorem C05_src_iso_loop_matches_source : forall f h maxp seq total first x rest,
+  let l := x :: rest in
+  let env0 := iso_env (blen l) 0 (b2z first) maxp 0 0 0 total seq in
+  let hl := pxeval env0 iso_header_length in
+  let env1 := iso_env (blen l) 0 (b2z first) maxp hl 0 0 total seq in
+  let fl := pxeval env1 iso_fragment_length in
+  let env2 := iso_env (blen l) 0 (b2z first) maxp hl fl 0 total seq in
+  let last := b2z (truthy (pxeval env2 iso_is_last)) in
+  let env3 := iso_env (blen l) 0 (b2z first) maxp hl fl last total seq in
+  iso_loop (S f) h maxp seq total first l =
+  if negb (truthy (pxeval env1 iso_assert_test)) then None
+  else
+    let fr := firstn (Z.to_nat fl) l in
+    let pkt := if first
+               then mkIso h (pxeval env3 iso_first_pb) (pxeval env3 iso_first_len) None (Some seq)
+                          (Some (pxeval env3 iso_first_sdu_len)) (Some (pxeval env3 iso_first_psf)) fr
+               else mkIso h (pxeval env3 iso_later_pb) (pxeval env3 iso_later_len) None None None None fr in
+    match iso_loop f h maxp seq total false (skipn (Z.to_nat fl) l) with
+    | Some r => Some (pkt :: r)
+    | None => None
+    end.
+Proof. exact iso_loop_matches_source. Qed.
+Print Assumptions C05_src_iso_loop_matches_source.
+
+Theorem C05_src_iso_atoms_match_source : iso_atoms = exp_iso_atoms.
+Proof. exact iso_atoms_src. Qed.
+Print Assumptions C05_src_iso_atoms_match_source.
+
+Theorem C05_src_iso_seq_matches_source : forall h maxp seq sdu ps,
+  iso_loop (List.length sdu) h maxp seq (blen sdu) true sdu = Some ps ->
+  snd (send_iso_sdu h maxp seq sdu) = pxeval (iso_env 0 0 0 0 0 0 0 0 seq) iso_seq_update.
+Proof. exact iso_seq_matches_source. Qed.
+Print Assumptions C05_src_iso_seq_matches_source.
+
+Theorem C05_src_iso_header_matches_source : forall ts pb handle l f info w,
+  let env := env_of [ts; pb; handle; l; f; info; w] in
+  isohdr_atoms = exp_isohdr_atoms /\
+  pxeval env isohdr_pack = iso_hdr ts pb handle /\
+  pxeval env isohdr_info_pack = Z.lor l (Z.shiftl f 14) /\
+  pxeval env isohdr_handle = Z.land info 4095 /\
+  pxeval env isohdr_pb = Z.land (Z.shiftr info 12) 3 /\
+  pxeval env isohdr_ts = Z.land (Z.shiftr info 14) 1 /\
+  pxeval env isohdr_sdu_len = Z.land w 4095 /\
+  pxeval env isohdr_psf = Z.land (Z.shiftr w 14) 3.
+Proof. exact isohdr_matches_source. Qed.
+Print Assumptions C05_src_iso_header_matches_source.
 
 (* ---- non-vacuity ---- *)
 Example C05_example_relay :
